@@ -14,7 +14,7 @@ use serde_json::{json, Value};
 pub const META: Meta = Meta {
     id: "C04",
     level: "exploration",
-    rule: "Categorical product, enumerated: entity ETag {absent, strong, weak, strong containing ', '} x mtime {absent, whole second, sub-second} x If-Match and If-None-Match each in {absent} + 12 representative lists (crossed fully with each other) x If-Modified-Since, If-Unmodified-Since in {absent, LM-1s, LM, LM+1s} x {GET, HEAD}; every list of 1-3 tags over {own tag, W/-toggled, other strong, other weak, comma tag} and '*' crossed with all other dimensions singly; proptest for 4-tag lists, all list separators, obsolete date formats, an added Range header and other mtimes. Oracle: the statement evaluated literally by an independent precondition evaluator (own quoted-string-aware list splitter); 'continues' = same status/headers/body as the request without the four conditionals. Non-trivial = >= 2 conditional headers, or a list of >= 2 tags, or a sub-second mtime with a date header; distinct by fingerprint of case.",
+    rule: "Categorical product, enumerated: entity ETag {absent, strong, weak, strong containing ', '} x mtime {absent, whole second, sub-second} x If-Match and If-None-Match each in {absent} + 12 representative lists (crossed fully with each other) x If-Modified-Since, If-Unmodified-Since in {absent, LM-1s, LM, LM+1s} x {GET, HEAD}; every list of 1-3 tags over {own tag, W/-toggled, other strong, other weak, comma tag} and '*' crossed with all other dimensions singly; the tag-content phase (entity tags that are a list separator, end in backslashes, hold obs-text or U+FFFD, against every list of 1-3 tags over own / toggled / one-byte-off / comma-edged / backslash-ended neighbours x 4 separators); proptest for 4-tag lists, random tag bytes, all list separators, obsolete date formats, an added Range header and other mtimes. Oracle: the statement evaluated literally by an independent precondition evaluator (own quoted-string-aware list splitter); 'continues' = same status/headers/body as the request without the four conditionals. Non-trivial = >= 2 conditional headers, or a list of >= 2 tags, or a sub-second mtime with a date header; distinct by fingerprint of case.",
     assumptions: &[
         "validators are well-formed (the statement's premise); modification times are not in the future (C14 covers the clamp)",
         "HTTP-dates are parsed with the httpdate crate in the oracle as well",
@@ -475,6 +475,50 @@ pub fn run_all(cx: &Cx) -> Acc {
                             };
                             acc.run_case(cx, "all-lists", &c, |acc| check(&c, acc));
                         }
+                    }
+                }
+            }
+        }
+    }));
+    // Tag *content*: entity tags that are a list separator, end in backslashes or hold obs-text,
+    // against every list of 1-3 tags over {own, W/-toggled, one byte off, neighbours ending / starting
+    // with a comma, a tag ending in a backslash, another tag} with each separator.
+    let awkward: Vec<Bs> = [&b","[..], b", ", b"\\", b"C:\\dir\\", b"a\\\\", b"v\xe9", b"\x80\xff", b"\xef\xbf\xbd", b"", b"W/", b"*"]
+        .iter()
+        .flat_map(|o| [quote(o, false), quote(o, true)])
+        .collect();
+    acc.merge(par_units(cx, "awkward-tags", &awkward, true, "entity tag content {',', ', ', backslashes, obs-text, U+FFFD, empty, 'W/', '*'} x strong/weak x every list of 1-3 tags over 7 candidates x 4 separators x {If-Match, If-None-Match} x GET/HEAD", |cx, etag, acc| {
+        let mut cands: Vec<Vec<u8>> = vec![etag.0.clone(), reqgen::toggle_weak(&etag.0), b"\"a,\"".to_vec(), b"\",b\"".to_vec(), b"\"x\\\"".to_vec(), b"\"other\"".to_vec()];
+        cands.extend(reqgen::one_byte_off(&etag.0).into_iter().take(1));
+        let mut lists: Vec<Vec<&Vec<u8>>> = Vec::new();
+        for a in &cands {
+            lists.push(vec![a]);
+            for b in &cands {
+                lists.push(vec![a, b]);
+                for d in &cands {
+                    lists.push(vec![a, b, d]);
+                }
+            }
+        }
+        for l in &lists {
+            for sep in reqgen::LIST_SEPS {
+                if l.len() == 1 && *sep != "," {
+                    continue;
+                }
+                let list = join(l, sep);
+                for as_im in [true, false] {
+                    for method in ["GET", "HEAD"] {
+                        let c = Case {
+                            etag: Some(etag.clone()),
+                            mtime: Mtime::At(T0, 0),
+                            method: method.into(),
+                            if_match: if as_im { Some(list.clone()) } else { None },
+                            if_none_match: if as_im { None } else { Some(list.clone()) },
+                            if_modified_since: None,
+                            if_unmodified_since: None,
+                            range: None,
+                        };
+                        acc.run_case(cx, "awkward-tags", &c, |acc| check(&c, acc));
                     }
                 }
             }
